@@ -157,6 +157,16 @@ class Gen:
             if len(plain) >= 1:
                 c = self.pick(1)[0]
                 return self.add(dict(name=self.name(), kind="ite", args=[c, self.rng.choice(plain), self.rng.choice(plain)], id=self.nid()))
+        if allow.get("ctx") and r < 0.96 and rng.random() < 0.25:
+            # a port offered as wiring context, and a sub-graph that imports it next to its declared input
+            plain = [p for p in self.ports if not self.is_ref(p)]
+            if plain:
+                if getattr(self, "ctx_name", None) is None:
+                    self.ctx_name = self.add(dict(name=self.name(), kind="ctxscope", args=[rng.choice(plain)], id=0), is_port=False)
+                how = rng.choice(allow.get("how", ("inline", "nested")))
+                i = self.next_sg
+                self.next_sg += 1
+                return self.add(dict(name=self.name(), kind=how, g="SgCtx", args=[rng.choice(plain), self.ctx_name], p=rng.randint(1, 4), q=1, id=i))
         if r < 0.96 and allow.get("sub", True):
             g = rng.choice([s for s in SUBGRAPHS if s != "SgFail"])
             how = rng.choice(allow.get("how", ("inline", "nested", "nested", "nested2", "nested3")))
@@ -247,7 +257,7 @@ def add_delayed(prog, rng, count=1):
                 continue
             for j, a in enumerate(n.get("args", [])):
                 b = a.lstrip("~")
-                if names[b]["kind"] not in ("feedback", "delayed"):
+                if names[b]["kind"] not in ("feedback", "delayed", "ctxscope") and n["kind"] != "ctxscope":
                     cands.append((n, j))
         if not cands:
             return prog
